@@ -8,7 +8,7 @@ L3  the property itself on the implementation: a value outside the documented do
     ValueError/TypeError-family error and leave nothing fitted, a value inside must be accepted; malformed training
     data must be rejected; predict/score/print before fit must raise; check_groups against an independent spec.
 """
-import contextlib, inspect, io, itertools, json, sys
+import collections, contextlib, inspect, io, itertools, json, sys
 from fractions import Fraction
 from numbers import Integral, Real
 import numpy as np
@@ -186,11 +186,13 @@ def candidate_values(chk, e, p, cons, rng):
         eps = 1e-6 * max(1.0, abs(b))
         reals |= {float(b), float(b) - eps, float(b) + eps}
         ulps |= {float(np.nextafter(float(b), np.inf)), float(np.nextafter(float(b), -np.inf))}
+    ulps |= {5e-324, -5e-324, 1e300, -1e300, float(np.nextafter(0.1 + 0.2, 1.0))}      # denormals, huge magnitudes, adjacent doubles
+    neg_zero = V("R 0 1", lambda: -0.0, "real", "float -0.0")
     if chk.tier == "thorough":
         lo, hi = min(bounds) - 4, max(bounds) + 4
         ints |= {int(rng.integers(lo, hi + 1)) for _ in range(12)}
         reals |= {float(rng.uniform(lo, hi)) for _ in range(24)}
-    vals = [v_int(z, numpy_flavour=(k % 3 == 2)) for k, z in enumerate(sorted(ints))] + [v_real(x) for x in sorted(reals)] + [v_real(x, True) for x in sorted(ulps - reals)]
+    vals = [v_int(z, numpy_flavour=(k % 3 == 2)) for k, z in enumerate(sorted(ints))] + [v_real(x) for x in sorted(reals)] + [v_real(x, True) for x in sorted(ulps - reals)] + [neg_zero]
     vals += [V_TRUE, V_FALSE, V_NPBOOL, V_NAN, V_PINF, V_NINF, V_NONE, V_OTHER]
     opts = sorted({o for c in cons or [] if isinstance(c, skpv.StrOptions) for o in c.options} | set(dstrs))
     vals += [v_str(o) for o in opts] + [v_str("nonsense"), v_str("")]
@@ -591,9 +593,9 @@ def malformed_inputs():
         ("byte strings", lambda: np.round(X, 2).astype("S"), (2, N, D, False, True)),
         ("list of lists of str", lambda: [[str(v) for v in row] for row in np.round(X, 2)], (2, N, D, False, True)),
         ("special number spellings", lambda: [["1.5", "-2", "1e3"]] * (N - 2) + [["nan", "inf", "1"]] * 2, (2, N, D, False, False)),
-        # check_array(dtype="numeric") converts an object array with astype(float64): strings that parse as numbers pass.
-        # The as-is model takes them as numeric (L2); the property does not (L3).
-        ("object array of numeric strings", lambda: np.round(X, 2).astype(str).astype(object), (2, N, D, True, True)),
+        # check_array(dtype="numeric") deliberately converts an object array with astype(float64): text that parses as numbers is
+        # numeric data in scikit-learn's sense once validated.  Observed only: run, counted, never failed (either way).
+        ("observed:object array of numeric strings", lambda: np.round(X, 2).astype(str).astype(object), (2, N, D, True, True)),
         ("object array of words", lambda: np.array([["a", "b", "c"]] * N, dtype=object), (2, N, D, False, True)),
         ("object array with None", lambda: np.array([[1.0, None, 2.0]] * N, dtype=object), (2, N, D, False, True)),
         ("object array with a list entry", lambda: np.array([[1.0, [2.0], 3.0]] * N, dtype=object), (2, N, D, False, True)),
@@ -620,6 +622,7 @@ def stream_malformed(chk, i, rng):
     m = 3
     ok = chk.ask(f"c16.data {ndim} {n} {d} {int(numeric)} {int(finite)} {m}").bool()
     well_formed = kind.startswith("ok:")
+    observed = kind.startswith("observed:")
     probe = impl.Kauri() if name == "Kauri" else impl.make(name)
     for ep, _ in entry_points(probe):
         if name == "Kauri":
@@ -631,6 +634,15 @@ def stream_malformed(chk, i, rng):
         r, exc = outcome(lambda: call(Xb))
         replay = {"estimator": name, "input": kind, "entry_point": ep}
         what = f"{name}.{ep} on {kind} data"
+        if observed:
+            chk.dist[f"data:{kind}:{ep}:{r}"] += 1
+            note = "training data given as an object array of numeric strings is converted by scikit-learn's check_array (astype(float64)): observed, not judged (see input_distribution 'data:observed:...')"
+            if note not in chk.notes:
+                chk.notes.append(note)
+            if r != "accepted":
+                check_rejected(chk, name, est, None, f"{kind} data through {ep}", replay, data())
+            chk.count(("data", name, kind, ep))
+            continue
         if (r == "accepted") != ok:
             chk.fail(f"data:model-mismatch:{kind}", f"{what}: {r} ({type(exc).__name__ if r != 'accepted' else ''}: {str(exc)[:120] if r != 'accepted' else ''}), the data rule of the model says {'accept' if ok else 'reject'}", replay)
         if well_formed and r != "accepted":
@@ -651,7 +663,7 @@ def stream_malformed(chk, i, rng):
 AFFINITY_NAMES = ["LinearMMD", "MLPMMD", "SparseLinearMMD", "SparseMLPMMD", "CategoricalMMD", "LinearWasserstein", "MLPWasserstein",
                   "CategoricalWasserstein", "LinearModel", "MLPModel", "Douglas", "Kauri"]
 AFFINITY_KINDS = ["missing", "wrong-shape", "non-square", "1-D", "3-D", "nan", "strings", "unicode strings", "byte strings", "list of lists of str",
-                  "object array of numeric strings", "object array with None", "complex", "given", "given-as-list", "given-as-object-array"]
+                  "observed:object array of numeric strings", "object array with None", "complex", "given", "given-as-list", "given-as-object-array"]
 
 
 def stream_affinity(chk, i, rng):
@@ -682,14 +694,23 @@ def stream_affinity(chk, i, rng):
                 "strings": (np.array([["a"] * N] * N, dtype=object), (2, N, N, 0, 1)),
                 "unicode strings": (np.round(A, 2).astype(str), (2, N, N, 0, 1)), "byte strings": (np.round(A, 2).astype("S"), (2, N, N, 0, 1)),
                 "list of lists of str": ([[str(v) for v in row] for row in np.round(A, 2)], (2, N, N, 0, 1)),
-                # check_array converts object arrays with astype(float64): the as-is rule takes text that parses as numeric (L2)
-                "object array of numeric strings": (np.round(A, 2).astype(str).astype(object), (2, N, N, 1, 1)),
+                # check_array converts object arrays with astype(float64): observed only, never failed
+                "observed:object array of numeric strings": (np.round(A, 2).astype(str).astype(object), None),
                 "object array with None": (np.where(np.eye(N) > 0, None, A.astype(object)), (2, N, N, 0, 1)),
                 "complex": (A.astype(complex), (2, N, N, 0, 1)),
                 "given": (A, (2, N, N, 1, 1)), "given-as-list": (A.tolist(), (2, N, N, 1, 1)), "given-as-object-array": (A.astype(object), (2, N, N, 1, 1))}[kind]
     ep = "fit_predict" if i % 2 else "fit"
     r, exc = outcome(lambda: getattr(est, ep)(X, y))
     replay = {"estimator": name, "precomputed": kind, "entry_point": ep}
+    if kind.startswith("observed:"):
+        chk.dist[f"affinity:{kind}:{r}"] += 1
+        note = "a precomputed affinity given as an object array of numeric strings is converted by check_array: observed, not judged"
+        if note not in chk.notes:
+            chk.notes.append(note)
+        if r != "accepted":
+            check_rejected(chk, name, est, None, f"precomputed affinity {kind}", replay, X)
+        chk.count(("affinity", name, kind))
+        return
     if shape is not None:
         ok = chk.ask(f"c16.precomputed {shape[0]} {shape[1]} {shape[2]} {N} {shape[3]} {shape[4]}").bool()
         if (r == "accepted") != ok:
@@ -884,6 +905,406 @@ def stream_groups_malformed(chk, i, rng):
         chk.count(("gm", name, label))
 
 
+# =========================================================================================== round-3 streams
+# In-domain values in every representation must be accepted and give the same fitted result; arguments are left untouched;
+# degenerate sizes and inclusive interval ends are accepted; rectangular affinities are rejected through every entry point.
+OBSERVED = collections.Counter()
+
+
+def observe(chk, key, what):
+    """A corner at which the unchanged tree behaves unexpectedly: recorded (dist + one note per key), reported, not judged."""
+    chk.dist["observed: " + key] += 1
+    if OBSERVED[key] == 0:
+        chk.notes.append(f"observed (not judged): {key} — e.g. {what}")
+    OBSERVED[key] += 1
+
+
+# Corners at which the UNCHANGED tree misbehaves, found by the round-3 streams and reported to the coordinator (exact calls in
+# the notes of the evidence).  They are recorded, not judged, until a disposition (fix / known finding / out of scope) is made;
+# every other key of these streams fails.
+OBSERVE_ONLY = {
+    "repr:container-result:groups:list of tuples", "repr:container-result:groups:partial list of tuples",
+    "repr:affinity-rejected:list of lists:SparseLinearMMD.path", "repr:affinity-rejected:list of lists:SparseMLPMMD.path",
+    "boundary:in-domain-rejected:draw_gmm: one component",
+}
+
+
+def fail_or_observe(chk, key, what, replay, layer="L3"):
+    if key in OBSERVE_ONLY:
+        observe(chk, key, what)
+    else:
+        chk.fail(key, what, replay, layer=layer)
+
+
+def grid_data(n=N, d=D, integral=False):
+    r = np.random.RandomState(5)
+    return r.randint(1, 7, size=(n, d)).astype(float) if integral else r.randint(1, 40, size=(n, d)) / 8.0
+
+
+def fit_signature(est):
+    out = {}
+    for a in fitted_attrs(est):
+        v = getattr(est, a)
+        if isinstance(v, (np.ndarray, list, tuple, int, float, np.number)):
+            try:
+                out[a] = np.asarray(v, dtype=float)
+            except (ValueError, TypeError):
+                out[a] = np.asarray([np.asarray(x[1], dtype=float) for x in v]) if a == "cut_points_list_" else None
+    return out
+
+
+def same_signature(a, b):
+    if set(a) != set(b):
+        return f"attributes differ: {sorted(set(a) ^ set(b))}"
+    for k in a:
+        if a[k] is None or b[k] is None:
+            continue
+        if a[k].shape != b[k].shape or not np.allclose(a[k], b[k], rtol=1e-9, atol=1e-12, equal_nan=True):
+            return f"{k} differs"
+    return None
+
+
+def snapshot(obj):
+    if isinstance(obj, np.ndarray):
+        return ("nd", obj.dtype.str, obj.shape, obj.tobytes(), obj.flags.writeable)
+    if isinstance(obj, (list, tuple)):
+        return (type(obj).__name__, tuple(snapshot(x) for x in obj))
+    if isinstance(obj, dict):
+        return ("dict", tuple((k, snapshot(v)) for k, v in obj.items()))
+    return ("v", repr(obj))
+
+
+PARAM_REPRS = {   # parameter -> (reference python value, representations of the same value that must be accepted)
+    "n_clusters": (2, [np.int64, np.int32]), "max_iter": (2, [np.int64, np.int32]), "batch_size": (4, [np.int64, np.int32]),
+    "n_hidden_dim": (3, [np.int64, np.int32]), "n_cuts": (1, [np.int64, np.int32]), "random_state": (3, [np.int64, np.int32]),
+    "learning_rate": (0.125, [np.float32, np.float64]), "reg": (0.5, [np.float32, np.float64]), "alpha": (0.5, [np.float32, np.float64]),
+    "M": (2.0, [np.float32, np.float64, int, np.int64]), "temperature": (0.5, [np.float32, np.float64]),
+    "max_clusters": (2, [np.int64, np.int32]), "max_depth": (2, [np.int64, np.int32]), "min_samples_split": (2, [np.int64, np.int32]),
+    "min_samples_leaf": (1, [np.int64, np.int32]), "max_features": (2, [np.int64, np.int32]), "max_leaves": (3, [np.int64, np.int32]),
+}
+BOOL_PARAMS = ("verbose", "ovo", "dynamic")
+
+
+def repr_param_cases():
+    return [(name, p) for name, cls in impl.ALL_ESTIMATORS.items() for p in ctor_params(cls) if p in PARAM_REPRS or p in BOOL_PARAMS]
+
+
+def stream_repr_params(chk, i, rng):
+    name, p = repr_param_cases()[i]
+    cls = impl.ALL_ESTIMATORS[name]
+    X = grid_data()
+    if p in BOOL_PARAMS:
+        # numpy.bool_ for a documented bool: declared [bool] (an instance of bool) — the model, the documentation reading of
+        # Model/Doc.v and the code agree on rejecting it; recorded, since "bool" could be read to include numpy's
+        kw = dict(base_kwargs(name, p), **{p: np.bool_(False)})
+        r, exc = outcome(lambda: cls(**kw).fit(X))
+        chk.dist[f"repr:param:{p}=np.bool_:{r}"] += 1
+        if r != "accepted":
+            observe(chk, f"numpy.bool_ rejected for the bool hyper-parameter {p}", f"{name}({p}=np.bool_(False)).fit(X): {type(exc).__name__}")
+        chk.count(("repr-param", name, p))
+        return
+    ref_v, reps = PARAM_REPRS[p]
+    kw = base_kwargs(name, p)
+    if name == "Kauri" and p == "max_leaves":
+        kw["max_clusters"] = 2
+    ref = cls(**dict(kw, **{p: ref_v}))
+    quiet(lambda: ref.fit(X))
+    sig = fit_signature(ref)
+    for T in reps:
+        v = T(ref_v)
+        replay = {"estimator": name, "param": p, "value": f"{T.__name__}({ref_v!r})"}
+        sat = chk.ask(f"c16.gen {name} {p} " + (f"I {int(ref_v)}" if isinstance(v, (int, np.integer)) else v_real(float(v)).tok)).next()
+        est = cls(**dict(kw, **{p: v}))
+        r, exc = outcome(lambda: est.fit(X))
+        if sat != "1":
+            chk.fail("repr:param:model-rejects", f"{name}.{p}={replay['value']}: the model of the declared constraints rejects an in-domain value", replay)
+        if r != "accepted":
+            chk.fail(f"repr:param-rejected:{p}", f"{name}({p}={replay['value']}).fit raises {type(exc).__name__}: {str(exc)[:140]} although {p}={ref_v!r} is accepted", replay, layer="L3")
+        else:
+            d = same_signature(sig, fit_signature(est))
+            if d:
+                chk.fail(f"repr:param-result:{p}", f"{name}({p}={replay['value']}).fit gives a different model than {p}={ref_v!r}: {d}", replay, layer="L3")
+        chk.dist[f"repr:param:{T.__name__}:{r}"] += 1
+        chk.count(("repr-param", name, p, T.__name__))
+    # a 0-d array is not documented as a hyper-parameter value: observed only
+    r, exc = outcome(lambda: cls(**dict(kw, **{p: np.array(ref_v)})).fit(X))
+    chk.dist[f"repr:param:0-d array:{r}"] += 1
+
+
+def container_cases():
+    cs = []
+    mask_ref = np.array([True, False, True])
+    for label, mk in [("int32 array", lambda: mask_ref.astype(np.int32)), ("int64 array", lambda: mask_ref.astype(np.int64)), ("uint8 array", lambda: mask_ref.astype(np.uint8)),
+                      ("float array", lambda: mask_ref.astype(float)), ("read-only bool array", lambda: (lambda a: (a.setflags(write=False), a)[1])(mask_ref.copy())),
+                      ("Fortran bool view", lambda: np.asfortranarray(np.stack([mask_ref, mask_ref]))[0]), ("list", lambda: [True, False, True]), ("tuple", lambda: (True, False, True))]:
+        cs.append(("Douglas", "feature_mask", label, (lambda: mask_ref.copy()), mk))
+    g_ref = [[0, 1], [2]]
+    for name in impl.SPARSE:
+        for label, mk in [("list of tuples", lambda: [(0, 1), (2,)]), ("list of int32 arrays", lambda: [np.array([0, 1], dtype=np.int32), np.array([2], dtype=np.int32)]),
+                          ("list of int64 arrays", lambda: [np.array([0, 1]), np.array([2])]), ("lists of numpy integers", lambda: [[np.int64(0), np.int32(1)], [np.int16(2)]]),
+                          ("partial list of tuples", lambda: [(0, 1)]), ("read-only int32 arrays", lambda: [(lambda a: (a.setflags(write=False), a)[1])(np.array([0, 1], dtype=np.int32)), [2]])]:
+            cs.append((name, "groups", label, (lambda: [list(g) for g in g_ref]), mk))
+    for name, p, v in [("LinearMMD", "kernel_params", {"gamma": 0.5}), ("MLPMMD", "kernel_params", {"gamma": 0.5}), ("KernelRIM", "base_kernel_params", {"gamma": 0.5}),
+                       ("LinearWasserstein", "metric_params", {"p": 1.5})]:
+        cs.append((name, p, "dict left untouched", (lambda v=v: dict(v)), (lambda v=v: dict(v))))
+    return cs
+
+
+def stream_repr_containers(chk, i, rng):
+    name, p, label, mk_ref, mk = container_cases()[i]
+    X = grid_data()
+    kw = dict(max_iter=2, random_state=0, n_clusters=2)
+    if p == "kernel_params":
+        kw["kernel"] = "rbf"
+    if p == "base_kernel_params":
+        kw["base_kernel"] = "rbf"
+    if p == "metric_params":
+        kw["metric"] = "minkowski" if False else "euclidean"
+        kw.pop("metric")
+    ref = impl.make(name, **dict(kw, **{p: mk_ref()}))
+    rr, exc0 = outcome(lambda: ref.fit(X))
+    v = mk()
+    before = snapshot(v)
+    est = impl.make(name, **dict(kw, **{p: v}))
+    replay = {"estimator": name, "param": p, "representation": label}
+    for ep in ("fit", "fit_predict") + (("path",) if hasattr(est, "path") else ()):
+        est = impl.make(name, **dict(kw, **{p: v}))
+        r, exc = outcome(lambda: dict(entry_points(est))[ep](X))
+        if rr != "accepted":
+            chk.dist[f"repr:container:reference rejected:{name}.{p}"] += 1
+        elif r != "accepted":
+            if p == "feature_mask" and label in ("list", "tuple"):
+                # declared [np.ndarray, None], documented "array of boolean": the model, Doc.v and the code agree on rejecting a list
+                observe(chk, f"Douglas.feature_mask given as a {label} is rejected", f"Douglas(feature_mask={v!r}).{ep}(X): {type(exc).__name__}")
+            else:
+                chk.fail(f"repr:container-rejected:{p}", f"{name}({p} as {label}).{ep} raises {type(exc).__name__}: {str(exc)[:140]} although the same values as {type(mk_ref()).__name__} are accepted", replay, layer="L3")
+        elif ep == "fit":
+            d = same_signature(fit_signature(ref), fit_signature(est))
+            if d:
+                fail_or_observe(chk, f"repr:container-result:{p}:{label}", f"{name}({p} as {label}).fit gives a different model than the reference representation: {d}", replay)
+        if snapshot(v) != before:
+            chk.fail(f"repr:argument-modified:{p}", f"{name}({p} as {label}).{ep} modified the caller's {p}", replay, layer="L3")
+        chk.dist[f"repr:container:{p}:{label}:{ep}:{r}"] += 1
+        chk.count(("repr-container", name, p, label, ep))
+
+
+def data_variants():
+    Xg, Xi = grid_data(), grid_data(integral=True)
+    ro = lambda a: (lambda b: (b.setflags(write=False), b)[1])(a.copy())   # noqa: E731
+    big = np.repeat(Xg, 2, axis=0)
+    return [("float32", Xg, lambda: Xg.astype(np.float32)), ("Fortran order", Xg, lambda: np.asfortranarray(Xg)), ("strided rows view", Xg, lambda: big[::2]),
+            ("reversed columns view", Xg, lambda: Xg[:, ::-1].copy()[:, ::-1]), ("transposed transpose", Xg, lambda: np.ascontiguousarray(Xg.T).T),
+            ("read-only", Xg, lambda: ro(Xg)), ("list of lists", Xg, lambda: Xg.tolist()), ("tuple of tuples", Xg, lambda: tuple(map(tuple, Xg.tolist()))),
+            ("int64", Xi, lambda: Xi.astype(np.int64)), ("int32", Xi, lambda: Xi.astype(np.int32)), ("uint8", Xi, lambda: Xi.astype(np.uint8)),
+            ("bool", (Xi > 3).astype(float), lambda: Xi > 3), ("object array of numbers", Xg, lambda: Xg.astype(object))]
+
+
+def stream_repr_data(chk, i, rng):
+    names = list(impl.ALL_ESTIMATORS)
+    variants = data_variants()
+    name, (label, Xref, mk) = names[i // len(variants)], variants[i % len(variants)]
+
+    def new():
+        return impl.Kauri(max_clusters=2, random_state=0) if name == "Kauri" else impl.make(name, n_clusters=2, max_iter=2, random_state=0)
+    ref = new()
+    quiet(lambda: ref.fit(Xref))
+    sig = fit_signature(ref)
+    replay = {"estimator": name, "representation": label}
+    Xv = mk()
+    before = snapshot(Xv)
+    for ep in [e for e, _ in entry_points(new())]:
+        est = new()
+        r, res = outcome(lambda: dict(entry_points(est))[ep](Xv))
+        if r != "accepted":
+            chk.fail(f"repr:data-rejected:{label}", f"{name}.{ep} on the reference values as {label} raises {type(res).__name__}: {str(res)[:140]}", dict(replay, entry_point=ep), layer="L3")
+        elif ep in ("fit", "fit_predict"):
+            d = same_signature(sig, fit_signature(est))
+            if d:
+                chk.fail(f"repr:data-result:{label}", f"{name}.{ep} on {label} data gives a different model than on float64 C-contiguous data: {d}", dict(replay, entry_point=ep), layer="L3")
+            if ep == "fit_predict" and not np.array_equal(np.asarray(res), ref.labels_):
+                chk.fail(f"repr:data-result:{label}", f"{name}.fit_predict on {label} data returns other labels than the reference fit", dict(replay, entry_point=ep), layer="L3")
+        if snapshot(Xv) != before:
+            chk.fail("repr:argument-modified:X", f"{name}.{ep} modified the caller's X ({label})", dict(replay, entry_point=ep), layer="L3")
+        chk.dist[f"repr:data:{label}:{ep}:{r}"] += 1
+        chk.count(("repr-data", name, label, ep))
+    for meth in ("predict", "predict_proba", "score"):
+        if not hasattr(ref, meth):
+            continue
+        want = quiet(lambda: getattr(ref, meth)(Xref))
+        r, got = outcome(lambda: getattr(ref, meth)(Xv))
+        if r != "accepted":
+            fail_or_observe(chk, f"repr:data-rejected:{label}:{name}.{meth}", f"{name}.{meth} on the training values as {label} raises {type(got).__name__}: {str(got)[:140]}", dict(replay, entry_point=meth))
+        elif not np.allclose(np.asarray(got, dtype=float), np.asarray(want, dtype=float), rtol=(1e-5 if label == "float32" and meth == "score" else 1e-9), atol=1e-12):
+            # score recomputes the affinity from X: on float32 data the library computes it at float32 resolution
+            chk.fail(f"repr:data-result:{label}", f"{name}.{meth} on {label} data differs from the float64 reference", dict(replay, entry_point=meth), layer="L3")
+        if snapshot(Xv) != before:
+            chk.fail("repr:argument-modified:X", f"{name}.{meth} modified the caller's X ({label})", dict(replay, entry_point=meth), layer="L3")
+        chk.count(("repr-data", name, label, meth))
+
+
+RECT_KINDS = [("more columns", (N, N + 2)), ("fewer columns", (N, N - 2)), ("more rows", (N + 2, N)), ("fewer rows", (N - 2, N)), ("square, too large", (N + 2, N + 2)),
+              ("square, too small", (N - 1, N - 1)), ("one row", (1, N)), ("one column", (N, 1))]
+
+
+def stream_rect_affinity(chk, i, rng):
+    """Rectangular / wrong-size precomputed affinities through fit, fit_predict, score and path; well-formed ones in several
+    representations through the same entry points (accepted, same result, matrix left untouched)."""
+    name = AFFINITY_NAMES[i // len(RECT_KINDS)]
+    label, (rows, cols) = RECT_KINDS[i % len(RECT_KINDS)]
+    X = grid_data()
+    A = universal_metric(X) if "Wasserstein" in name else universal_kernel(X)
+    big = np.pad(A, ((0, 4), (0, 4)), mode="wrap")
+    y = big[:rows, :cols].copy()
+
+    def new():
+        if name == "Kauri":
+            return impl.Kauri(max_clusters=2, kernel="precomputed", random_state=0)
+        kw = dict(max_iter=1, random_state=0, n_clusters=2)
+        if name in ("LinearModel", "MLPModel", "Douglas"):
+            kw["gemini"] = G.MMDGEMINI(kernel="precomputed")
+        elif "Wasserstein" in name:
+            kw["metric"] = "precomputed"
+        else:
+            kw["kernel"] = "precomputed"
+        return impl.make(name, **kw)
+    ok = chk.ask(f"c16.precomputed 2 {rows} {cols} {N} 1 1").bool()
+    fitted = new()
+    quiet(lambda: fitted.fit(X, A))
+    eps = [("fit", lambda e: e.fit(X, y)), ("fit_predict", lambda e: e.fit_predict(X, y)), ("score", lambda e: e.score(X, y))]
+    if hasattr(fitted, "path"):
+        eps.append(("path", lambda e: e.path(X, y, alpha_multiplier=3.0, min_features=2, max_patience=1)))
+    for ep, call in eps:
+        est = fitted if ep == "score" else new()
+        before_attrs = snapshot([getattr(est, a) for a in fitted_attrs(est) if isinstance(getattr(est, a), np.ndarray)])
+        ysnap = snapshot(y)
+        r, exc = outcome(lambda: call(est))
+        replay = {"estimator": name, "precomputed": f"{label} {rows}x{cols} for {N} samples", "entry_point": ep}
+        if ok or (r == "accepted"):
+            chk.fail("affinity:rectangular:model-mismatch" if ok else "affinity:rectangular-accepted", f"{name}.{ep} with a {rows}x{cols} precomputed affinity for {N} samples: {r}; the precomputed rule of the model says {'accept' if ok else 'reject'}", replay, layer="L2" if ok else "L3")
+        elif r == "other":
+            chk.fail("affinity:rectangular:other-exception", f"{name}.{ep} with a {rows}x{cols} precomputed affinity for {N} samples raises {type(exc).__name__}: {str(exc)[:140]} — neither a ValueError nor a TypeError", replay, layer="L3")
+        if r != "accepted" and ep in ("fit", "fit_predict", "path"):
+            check_rejected(chk, name, est, "affinity" if ep != "path" else None, f"{rows}x{cols} precomputed affinity through {ep}", replay, X)
+        if ep == "score" and snapshot([getattr(est, a) for a in fitted_attrs(est) if isinstance(getattr(est, a), np.ndarray)]) != before_attrs:
+            chk.fail("affinity:score-modifies-model", f"{name}.score with a rejected affinity changed the fitted attributes", replay, layer="L3")
+        if snapshot(y) != ysnap:
+            chk.fail("repr:argument-modified:y", f"{name}.{ep} modified the caller's affinity matrix", replay, layer="L3")
+        chk.dist[f"affinity:rectangular:{label}:{ep}:{r}"] += 1
+        chk.count(("rect", name, label, ep))
+    if i % len(RECT_KINDS) == 0:      # once per estimator: the well-formed matrix in other representations
+        refsig = fit_signature(fitted)
+        ro = A.copy()
+        ro.setflags(write=False)
+        asym = A + np.triu(np.ones_like(A), 1) * 0.125
+        for lab, yv in [("float32", (A * 8).round() / 8), ("Fortran order", np.asfortranarray(A)), ("read-only", ro), ("list of lists", A.tolist()),
+                        ("strided view", np.repeat(np.repeat(A, 2, 0), 2, 1)[::2, ::2]), ("asymmetric", asym), ("negative entries", A - A.mean())]:
+            if lab == "float32":
+                yref, yv = yv, yv.astype(np.float32)
+            else:
+                yref = np.asarray(yv, dtype=float).copy()
+            r0 = new()
+            ref_r, _ = outcome(lambda: r0.fit(X, yref))
+            for ep, call in [("fit", lambda e: e.fit(X, yv)), ("fit_predict", lambda e: e.fit_predict(X, yv))] + ([("path", lambda e: e.path(X, yv, alpha_multiplier=3.0, min_features=2, max_patience=1))] if hasattr(fitted, "path") else []):
+                est = new()
+                ysnap = snapshot(yv)
+                r, exc = outcome(lambda: call(est))
+                replay = {"estimator": name, "precomputed": lab, "entry_point": ep}
+                if ref_r == "accepted" and r != "accepted":
+                    fail_or_observe(chk, f"repr:affinity-rejected:{lab}:{name}.{ep}", f"{name}.{ep} with the precomputed affinity as {lab} raises {type(exc).__name__}: {str(exc)[:140]}", replay)
+                elif ref_r == "accepted" and ep == "fit":
+                    d = same_signature(fit_signature(r0), fit_signature(est))
+                    if d:
+                        chk.fail(f"repr:affinity-result:{lab}", f"{name}.fit with the affinity as {lab} gives a different model than with float64 C-contiguous: {d}", replay, layer="L3")
+                elif ref_r != "accepted":
+                    observe(chk, f"a well-formed {lab} precomputed affinity is rejected by {name}", f"{name}.fit(X, A): {ref_r}")
+                if snapshot(yv) != ysnap:
+                    chk.fail("repr:argument-modified:y", f"{name}.{ep} modified the caller's affinity matrix ({lab})", replay, layer="L3")
+                chk.dist[f"repr:affinity:{lab}:{ep}:{r}"] += 1
+                chk.count(("repr-affinity", name, lab, ep))
+
+
+def boundary_cases():
+    """(label, estimator-or-function thunk returning a callable, must_accept)"""
+    X, Xi = grid_data(), grid_data(integral=True)
+    n, d = X.shape
+    mk = impl.make
+    cs = []
+
+    def add(label, thunk, accept=True):
+        cs.append((label, thunk, accept))
+    for name in impl.BATCHED:
+        add(f"{name}: batch_size = n", lambda name=name: mk(name, n_clusters=2, max_iter=1, batch_size=n, random_state=0).fit(X))
+        add(f"{name}: batch_size = n + 3", lambda name=name: mk(name, n_clusters=2, max_iter=1, batch_size=n + 3, random_state=0).fit(X))
+        add(f"{name}: batch_size = 1", lambda name=name: mk(name, n_clusters=2, max_iter=1, batch_size=1, random_state=0).fit(X))
+    for name in impl.GRADIENT_ESTIMATORS:
+        add(f"{name}: n_clusters = 1", lambda name=name: mk(name, n_clusters=1, max_iter=1, random_state=0).fit(X))
+        add(f"{name}: n_clusters = n (one sample per cluster)", lambda name=name: mk(name, n_clusters=n, max_iter=1, random_state=0).fit(X))
+        add(f"{name}: n_clusters = n + 1", lambda name=name: mk(name, n_clusters=n + 1, max_iter=1, random_state=0).fit(X), False)
+        add(f"{name}: one feature", lambda name=name: mk(name, n_clusters=2, max_iter=1, random_state=0).fit(X[:, :1]))
+        add(f"{name}: random_state = 2**32 - 1", lambda name=name: mk(name, n_clusters=2, max_iter=1, random_state=2 ** 32 - 1).fit(X))
+        add(f"{name}: random_state = RandomState instance", lambda name=name: mk(name, n_clusters=2, max_iter=1, random_state=np.random.RandomState(1)).fit(X))
+    for name in impl.SPARSE:
+        add(f"{name}: alpha = 0", lambda name=name: mk(name, n_clusters=2, max_iter=1, alpha=0, random_state=0).fit(X))
+        add(f"{name}: alpha = -0.0", lambda name=name: mk(name, n_clusters=2, max_iter=1, alpha=-0.0, random_state=0).fit(X))
+        add(f"{name}: one group holding every feature", lambda name=name: mk(name, n_clusters=2, max_iter=1, groups=[[0, 1, 2]], random_state=0).fit(X))
+        add(f"{name}: groups = [] (all singletons)", lambda name=name: mk(name, n_clusters=2, max_iter=1, groups=[], random_state=0).fit(X))
+        add(f"{name}: path with min_features = d", lambda name=name: mk(name, n_clusters=2, max_iter=1, random_state=0).path(X, min_features=d, max_patience=1, alpha_multiplier=3.0))
+        add(f"{name}: path with keep_threshold = 1.0", lambda name=name: mk(name, n_clusters=2, max_iter=1, random_state=0).path(X, keep_threshold=1.0, min_features=2, max_patience=1, alpha_multiplier=3.0))
+    for name in ("SparseMLPModel", "SparseMLPMMD"):
+        add(f"{name}: M = 0", lambda name=name: mk(name, n_clusters=2, max_iter=1, M=0, random_state=0).fit(X))
+    for name in ("RIM", "KernelRIM"):
+        add(f"{name}: reg = 0", lambda name=name: mk(name, n_clusters=2, max_iter=1, reg=0, random_state=0).fit(X))
+    add("Douglas: one cut, one selected feature", lambda: impl.Douglas(n_clusters=2, n_cuts=1, feature_mask=np.array([False, True, False]), max_iter=1, random_state=0).fit(X))
+    add("Douglas: all-True mask of the right length", lambda: impl.Douglas(n_clusters=2, feature_mask=np.array([True] * d), max_iter=1, random_state=0).fit(X))
+    for m in (d - 1, d + 1, 1, 2 * d):
+        add(f"Douglas: all-True mask of length {m} for {d} features", lambda m=m: impl.Douglas(n_clusters=2, feature_mask=np.array([True] * m), max_iter=1, random_state=0).fit(X), False)
+        add(f"Douglas: all-True mask of length {m} for {d} features (fit_predict)", lambda m=m: impl.Douglas(n_clusters=2, feature_mask=np.array([True] * m), max_iter=1, random_state=0).fit_predict(X), False)
+    K = impl.Kauri
+    add("Kauri: max_clusters = 1", lambda: K(max_clusters=1, random_state=0).fit(X))
+    add("Kauri: max_leaves = 2, max_depth = 1", lambda: K(max_clusters=2, max_leaves=2, max_depth=1, random_state=0).fit(X))
+    add("Kauri: max_features = 1", lambda: K(max_clusters=2, max_features=1, random_state=0).fit(X))
+    add("Kauri: max_features = d and d + 5", lambda: (K(max_clusters=2, max_features=d, random_state=0).fit(X), K(max_clusters=2, max_features=d + 5, random_state=0).fit(X)))
+    add("Kauri: min_samples_split = 2 * min_samples_leaf = n", lambda: K(max_clusters=2, min_samples_leaf=n // 2, min_samples_split=n, random_state=0).fit(X))
+    add("Kauri: min_samples_split = 2 * min_samples_leaf - 1", lambda: K(max_clusters=2, min_samples_leaf=2, min_samples_split=3, random_state=0).fit(X), False)
+    add("Kauri: min_samples_leaf = n", lambda: K(max_clusters=2, min_samples_leaf=n, min_samples_split=2 * n, random_state=0).fit(X))
+    add("Kauri: min_samples_leaf = n + 1 (fewer samples than a leaf needs)", lambda: K(max_clusters=2, min_samples_leaf=n + 1, min_samples_split=2 * n + 2, random_state=0).fit(X), False)
+    add("Kauri: one feature, one sample", lambda: (K(max_clusters=2, random_state=0).fit(X[:, :1]), K(max_clusters=2, random_state=0).fit(X[:1])))
+    add("Kauri: integer data with duplicated values", lambda: K(max_clusters=3, random_state=0).fit(Xi))
+    for g in (G.KLGEMINI, G.TVGEMINI, G.HellingerGEMINI, G.ChiSquareGEMINI, G.MMDGEMINI, G.WassersteinGEMINI):
+        add(f"{g.__name__}: epsilon one ulp above 0 and one ulp below 1", lambda g=g: (g(epsilon=5e-324), g(epsilon=float(np.nextafter(1.0, 0.0)))))
+        add(f"{g.__name__}: epsilon = 0.0 / -0.0 / 1.0", lambda g=g: [g(epsilon=e) for e in (0.0,)], False)
+        add(f"{g.__name__}: epsilon = -0.0", lambda g=g: g(epsilon=-0.0), False)
+        add(f"{g.__name__}: epsilon = 1.0", lambda g=g: g(epsilon=1.0), False)
+    add("draw_gmm: one component", lambda: gdata.draw_gmm(3, [np.zeros(2)], [np.eye(2)], [1.0], random_state=0))
+    add("draw_gmm: n = 1, two components", lambda: gdata.draw_gmm(1, [np.zeros(2), np.ones(2)], [np.eye(2)] * 2, [0.5, 0.5], random_state=0))
+    add("draw_gmm: numpy integer n / seed, integer loc and scale, tuple of proportions", lambda: gdata.draw_gmm(np.int64(3), np.zeros((2, 2), dtype=np.int64), np.stack([np.eye(2, dtype=np.int32)] * 2), (0.5, 0.5), random_state=np.int64(0)))
+    add("multivariate_student_t: n = 1, df = 1", lambda: gdata.multivariate_student_t(1, np.zeros(2), np.eye(2), df=1, random_state=0))
+    add("gstm: n = 4", lambda: gdata.gstm(n=4, random_state=0))
+    add("gstm: n = 3", lambda: gdata.gstm(n=3, random_state=0), False)
+    add("celeux_one: n = 1, p = 1", lambda: gdata.celeux_one(n=1, p=1, random_state=0))
+    add("celeux_two: n = 1", lambda: gdata.celeux_two(n=1, random_state=0))
+    add("add_mlcl_constraint: one must-link pair, factor one ulp above 0", lambda: impl.add_mlcl_constraint(impl.LinearModel(max_iter=1), must_link=[[0, 1]], factor=5e-324))
+    add("add_mlcl_constraint: pairs as int32 array / tuple of tuples", lambda: (impl.add_mlcl_constraint(impl.LinearModel(max_iter=1), must_link=np.array([[0, 1]], dtype=np.int32)),
+                                                                              impl.add_mlcl_constraint(impl.LinearModel(max_iter=1), cannot_link=((0, 1), (2, 3)))))
+    add("add_mlcl_constraint: factor = 0", lambda: impl.add_mlcl_constraint(impl.LinearModel(max_iter=1), must_link=[[0, 1]], factor=0), False)
+    add("print_kauri_tree: names as tuple / array / exactly as many as features", lambda: [impl.print_kauri_tree(fitted_kauri(), nm) for nm in (("a", "b", "c"), np.array(["a", "b", "c"]), ["a", "b", "c"])])
+    return cs
+
+
+def stream_boundaries(chk, i, rng):
+    label, thunk, accept = boundary_cases()[i]
+    r, exc = outcome(thunk)
+    replay = {"boundary": label}
+    if accept and r != "accepted":
+        fail_or_observe(chk, f"boundary:in-domain-rejected:{label}", f"{label}: raises {type(exc).__name__}: {str(exc)[:160]}", replay)
+    if not accept and r == "accepted":
+        chk.fail("boundary:out-of-domain-accepted", f"{label}: accepted", replay, layer="L3")
+    if not accept and r == "other":
+        chk.fail("boundary:other-exception", f"{label}: raises {type(exc).__name__}: {str(exc)[:160]} — neither a ValueError nor a TypeError", replay, layer="L3")
+    chk.dist[f"boundary:{'accept' if accept else 'reject'} expected:{r}"] += 1
+    chk.count(("boundary", label))
+
+
 def n_group_chunks(chk):
     return (len(group_universe(chk)) + CHUNK - 1) // CHUNK
 
@@ -904,6 +1325,11 @@ def main():
         "groups_random": (stream_groups_random, lambda: 600 if chk.tier == "quick" else 30000, 3),
         "groups_entries": (stream_groups_entries, lambda: 150 if chk.tier == "quick" else 1500, 3),
         "groups_malformed": (stream_groups_malformed, lambda: 11, 1),
+        "repr_params": (stream_repr_params, lambda: len(repr_param_cases()), 1),
+        "repr_containers": (stream_repr_containers, lambda: len(container_cases()), 1),
+        "repr_data": (stream_repr_data, lambda: len(impl.ALL_ESTIMATORS) * len(data_variants()), 1),
+        "rect_affinity": (stream_rect_affinity, lambda: len(AFFINITY_NAMES) * len(RECT_KINDS), 1),
+        "boundaries": (stream_boundaries, lambda: len(boundary_cases()), 1),
     }
     timing = {}
     if chk.replay_path:
